@@ -59,6 +59,9 @@ pub(crate) struct EntityReactors
 
 impl EntityReactors
 {
+    #[cfg(ukoehb_bevy_cobweb_verif)]
+    pub(crate) fn verif_len(&self) -> usize { self.reactors.len() }
+
     pub(crate) fn insert(&mut self, rtype: EntityReactionType, handle: ReactorHandle)
     {
         self.reactors.push((rtype, handle));
